@@ -63,7 +63,7 @@ type Target struct {
 	sync            bool               // denotes whether this cache is in sync with target
 	meta            *metadata.Metadata // metadata associated with target
 	lat             *latency.Latency   // latency measurements
-	tsmu            sync.Mutex         // protects latest timestamp
+	tsmu            sync.Mutex         // protects latest timestamp and sync
 	ts              time.Time          // latest timestamp for an update
 	excludedMeta    stringset.Set      // set of metadata not to generate update for
 	futureThreshold time.Duration      // how far in the future an update can be accepted
@@ -73,6 +73,20 @@ type Target struct {
 // Name returns the name of the target.
 func (t *Target) Name() string {
 	return t.name
+}
+
+// setSync and inSync access the sync flag, which the target's update stream
+// and the periodic metadata refresh both go through.
+func (t *Target) setSync(v bool) {
+	t.tsmu.Lock()
+	t.sync = v
+	t.tsmu.Unlock()
+}
+
+func (t *Target) inSync() bool {
+	t.tsmu.Lock()
+	defer t.tsmu.Unlock()
+	return t.sync
 }
 
 // options contains options for creating a Cache.
@@ -525,8 +539,8 @@ func (t *Target) gnmiUpdate(n *pb.Notification) (*ctree.Leaf, error) {
 			if !ok {
 				return nil, fmt.Errorf("%v : has value %v of type %T, expected boolean", metadata.Path(metadata.Sync), u.Val, u.Val)
 			}
-			t.sync = tv.BoolVal
-			t.meta.SetBool(metadata.Sync, t.sync)
+			t.setSync(tv.BoolVal)
+			t.meta.SetBool(metadata.Sync, tv.BoolVal)
 		case metadata.Connected:
 			tv, ok := u.GetVal().GetValue().(*pb.TypedValue_BoolVal)
 			if !ok {
@@ -585,7 +599,7 @@ func (t *Target) gnmiUpdate(n *pb.Notification) (*ctree.Leaf, error) {
 			return nil, nil
 		}
 		// Compute latency for updated leaves.
-		if t.sync && realData {
+		if realData && t.inSync() {
 			// Record latency for post-sync target updates.  Exclude metadata updates.
 			t.lat.Compute(T(n.GetTimestamp()))
 		}
@@ -599,7 +613,7 @@ func (t *Target) gnmiUpdate(n *pb.Notification) (*ctree.Leaf, error) {
 		t.meta.AddInt(metadata.LeafCount, 1)
 		t.meta.AddInt(metadata.AddCount, 1)
 		// Compute latency for new leaves.
-		if t.sync {
+		if t.inSync() {
 			// Record latency for post-sync target updates.  Exclude metadata updates.
 			t.lat.Compute(T(n.GetTimestamp()))
 		}
